@@ -1,5 +1,9 @@
 #include "orcrun.h"
 #include "sim.h"
+#include "../seams/filesim.h"
+
+#include <sys/wait.h>
+#include <unistd.h>
 
 #include <algorithm>
 
@@ -49,6 +53,7 @@ void fill_meta(OrcProgram *p, ProgMeta *meta) {
     meta->vars[i].vartype = p->vars[i].vartype;
     meta->vars[i].size = p->vars[i].size;
     meta->vars[i].param_type = p->vars[i].param_type;
+    meta->vars[i].alignment = p->vars[i].alignment;
     if (p->vars[i].size == 8) meta->has8 = true;
     if (p->vars[i].vartype == ORC_VAR_TYPE_ACCUMULATOR) meta->has_acc = true;
   }
@@ -356,6 +361,7 @@ void make_inputs(const ProgMeta &meta, uint64_t dataseed, int nreq, RunData &d) 
   d.m = m;
   for (int i = 0; i < ORC_N_VARIABLES; i++) {
     d.arr[i].clear();
+    d.off[i] = 0;
     d.stride[i] = 0;
     d.params[i] = 0;
   }
@@ -367,8 +373,13 @@ void make_inputs(const ProgMeta &meta, uint64_t dataseed, int nreq, RunData &d) 
       // row length padded; generous slack so that iterator loads (loadupdb etc.) stay inside
       int stride = ((n * v.size + 15) & ~15) + 32;
       d.stride[i] = stride;
-      d.arr[i].resize((size_t)stride * m + 64);
-      for (auto &b : d.arr[i]) b = (uint8_t)r.next();
+      // 64-byte aligned base plus a seeded misalignment that is a multiple of the element size
+      int unit = v.alignment > v.size ? v.alignment : v.size;
+      int mis = (r.chance(1, 2) || unit >= 64) ? 0 : (int)(r.below(64 / unit) * unit);
+      d.arr[i].assign((size_t)stride * m + 64 + 128, 0);
+      uintptr_t base = (uintptr_t)d.arr[i].data();
+      d.off[i] = (int)((64 - (base % 64)) % 64) + mis;
+      for (size_t k = 0; k < (size_t)stride * m + 64; k++) d.arr[i][d.off[i] + k] = (uint8_t)r.next();
     } else if (v.vartype == ORC_VAR_TYPE_PARAM) {
       uint64_t val = r.next();
       if (v.shift_max > 0) val %= (uint64_t)v.shift_max;
@@ -408,7 +419,7 @@ void run_with(OrcProgram *prog, OrcCode *code, const ProgMeta &meta, RunMode mod
     const VarMeta &v = meta.vars[i];
     if (v.size == 0) continue;
     if (v.vartype == ORC_VAR_TYPE_SRC || v.vartype == ORC_VAR_TYPE_DEST) {
-      ex->arrays[i] = d.arr[i].data();
+      ex->arrays[i] = d.ptr(i);
       ex->params[i] = d.stride[i];
     } else if (v.vartype == ORC_VAR_TYPE_PARAM) {
       ex->params[i] = d.params[i];
@@ -429,8 +440,8 @@ std::string compare_outputs(const ProgMeta &meta, const RunData &a, const RunDat
     if (v.size == 0) continue;
     if (v.vartype == ORC_VAR_TYPE_DEST) {
       for (int row = 0; row < a.m; row++) {
-        const uint8_t *pa = a.arr[i].data() + (size_t)row * a.stride[i];
-        const uint8_t *pb = b.arr[i].data() + (size_t)row * b.stride[i];
+        const uint8_t *pa = a.ptr(i) + (size_t)row * a.stride[i];
+        const uint8_t *pb = b.ptr(i) + (size_t)row * b.stride[i];
         int len = a.n * v.size;
         if (memcmp(pa, pb, len)) {
           int k = 0;
@@ -454,7 +465,7 @@ uint64_t hash_outputs(const ProgMeta &meta, const RunData &d) {
     const VarMeta &v = meta.vars[i];
     if (v.size == 0) continue;
     if (v.vartype == ORC_VAR_TYPE_DEST) {
-      for (int row = 0; row < d.m; row++) f.add(d.arr[i].data() + (size_t)row * d.stride[i], d.n * v.size);
+      for (int row = 0; row < d.m; row++) f.add(d.ptr(i) + (size_t)row * d.stride[i], d.n * v.size);
     } else if (v.vartype == ORC_VAR_TYPE_ACCUMULATOR) {
       unsigned va = d.acc[i - ORC_VAR_A1];
       if (v.size == 2) va &= 0xffff;
@@ -565,6 +576,64 @@ std::string check_layout(const Layout &l, std::string &key) {
   return "";
 }
 
+// ---------------------------------------------------------------------------
+// pristine-process native oracle
+// ---------------------------------------------------------------------------
+// Runs `spec` natively in a fresh process (exec of ourselves): compile for the
+// target with the flag mask, run on the seeded inputs, report the output hash.
+bool pristine_native_hash(const std::string &spec, const std::string &target, unsigned long fmask, int n, uint64_t ds,
+                          uint64_t &hash_out) {
+  int pfd[2];
+  if (pipe(pfd) != 0) return false;
+  pid_t pid = fork();
+  if (pid == 0) {
+    close(pfd[0]);
+    dup2(pfd[1], 1);
+    std::string a3 = strf("%#lx", fmask), a4 = strf("%d", n), a5 = strf("%llu", (unsigned long long)ds);
+    execl("/proc/self/exe", "orcsim", "pristine", spec.c_str(), target.c_str(), a3.c_str(), a4.c_str(), a5.c_str(), (char *)nullptr);
+    _exit(127);
+  }
+  close(pfd[1]);
+  std::string out;
+  char buf[512];
+  ssize_t k;
+  while ((k = read(pfd[0], buf, sizeof buf)) > 0) out.append(buf, k);
+  close(pfd[0]);
+  int stt;
+  waitpid(pid, &stt, 0);
+  unsigned long long h = 0;
+  size_t pos = out.find("PRISTINE ok ");
+  if (pos == std::string::npos) return false;
+  if (sscanf(out.c_str() + pos, "PRISTINE ok %llu", &h) != 1) return false;
+  hash_out = h;
+  return true;
+}
+int pristine_main(int argc, char **argv) {
+  if (argc < 7) return 3;
+  std::string spec = argv[2], target = argv[3];
+  unsigned long fmask = strtoul(argv[4], nullptr, 0);
+  int n = atoi(argv[5]);
+  uint64_t ds = strtoull(argv[6], nullptr, 0);
+  unsetenv("ORC_CODE"); unsetenv("ORC_DEBUG"); unsetenv("ORC_BACKEND"); unsetenv("ORC_TARGET");
+  unsetenv("XDG_RUNTIME_DIR"); unsetenv("HOME"); unsetenv("TMPDIR");
+  corpus_load();
+  fs::reset();
+  fs::enable(true);
+  fs::set_dir("/tmp", fs::P_OK);
+  orc_init();
+  install_debug_sink();
+  ProgMeta meta;
+  OrcProgram *p = build_program(spec, "prog", &meta);
+  OrcTarget *t = target == "default" ? orc_target_get_default() : orc_target_get_by_name(target.c_str());
+  if (!t || !t->executable) { printf("PRISTINE no-target\n"); return 0; }
+  int res = orc_program_compile_full(p, t, orc_target_get_default_flags(t) & (unsigned)fmask);
+  if (!ORC_COMPILE_RESULT_IS_SUCCESSFUL(res)) { printf("PRISTINE not-native %#x\n", res); return 0; }
+  RunData d;
+  make_inputs(meta, ds, n, d);
+  run_with(p, nullptr, meta, RUN_EXEC, d);
+  printf("PRISTINE ok %llu\n", (unsigned long long)hash_outputs(meta, d));
+  return 0;
+}
 }  // namespace sim
 int spec_tool(const std::string &spec, const std::string &target, uint64_t ds, int n) {
   using namespace sim;
